@@ -11,7 +11,7 @@ if ! git -C $wt apply /verif/seeded/$id/patch.diff; then echo "PATCH-DOES-NOT-AP
 cd /verif
 log=$(VERIF_REPO=$wt VERIF_OUT=$out VERIF_SEED=$seed ${VCHECK:-bin/vcheck} run $prop --tier $tier 2>&1); code=$?
 nv=$(echo "$log" | grep -c "^VIOLATION")
-echo "$id -> $prop exit=$code violations=$nv $(echo "$log" | grep -m1 '^  case=' | cut -c1-220)"
+echo "$id -> $prop exit=$code violations=$nv $(echo "$log" | grep -a -m1 '^  case=' | LC_ALL=C tr -c '[:print:]\n' '?' | cut -c1-220)"
 [ $code -eq 2 ] && echo "$log" | grep INCONCLUSIVE | head -2
 [ $code -ge 3 ] && echo "$log" | tail -5
 git -C /repo worktree remove --force $wt; rm -rf $out
